@@ -14,7 +14,23 @@ structure Lookup where
   maxSize : Nat
   data : List (String × Nat) := []
   evicting : Bool := false
+  /-- `Lookup.pinned`: the keys used by the row that is being encoded (`none`: not tracked — the state
+      of a table nobody called `TermEncoder.start_row` on). They must stay resident until the row is
+      emitted, so evicting one of them is refused. -/
+  pinned : Option (List String) := none
 deriving Repr, DecidableEq, Inhabited
+
+/-- `if self.pinned is not None: self.pinned.add(key)` -/
+def Lookup.pin (l : Lookup) (k : String) : Lookup :=
+  match l.pinned with
+  | none => l
+  | some ps => { l with pinned := some (k :: ps) }
+
+/-- `self.pinned is not None and key in self.pinned` -/
+def Lookup.isPinned (l : Lookup) (k : String) : Bool :=
+  match l.pinned with
+  | none => false
+  | some ps => ps.contains k
 
 def Lookup.new (n : Nat) : Lookup := { maxSize := n }
 
@@ -25,18 +41,22 @@ def Lookup.find? (l : Lookup) (k : String) : Option (String × Nat) :=
 def Lookup.moveToEnd (l : Lookup) (k : String) : Option Lookup :=
   match l.find? k with
   | none => none
-  | some e => some { l with data := l.data.erase e ++ [e] }
+  | some e => some (({ l with data := l.data.erase e ++ [e] } : Lookup).pin k)
 
-/-- `Lookup.insert` (the key is known to be absent at every call site). -/
+/-- `Lookup.insert` (the key is known to be absent at every call site). When the table is full the
+    least recently used entry goes — unless the row being encoded uses it: then every entry is in use
+    by this one row and `JellyConformanceError` is raised. -/
 def Lookup.insert (l : Lookup) (k : String) : Except PyErr (Lookup × Nat) :=
   if l.maxSize == 0 then .error .indexError
   else if l.evicting then
     match l.data with
     | [] => .error .keyError            -- popitem on an empty dict; unreachable when maxSize ≥ 1
-    | (_, i) :: rest => .ok ({ l with data := rest ++ [(k, i)] }, i)
+    | (k0, i) :: rest =>
+      if l.isPinned k0 then .error .conformance
+      else .ok (({ l with data := rest ++ [(k, i)] } : Lookup).pin k, i)
   else
     let i := l.data.length + 1
-    .ok ({ l with data := l.data ++ [(k, i)], evicting := i == l.maxSize }, i)
+    .ok (({ l with data := l.data ++ [(k, i)], evicting := i == l.maxSize } : Lookup).pin k, i)
 
 structure LookupEnc where
   lookup : Lookup
